@@ -4,6 +4,8 @@ From Coq Require Import List String.
 From Verif Require Import Model.Lock.
 From C20gen Require Import LockFacts.
 Import ListNotations.
+Definition prod_eq_dec (a b : string * string) : {a = b} + {a <> b}.
+Proof. decide equality; apply string_dec. Defined.
 Local Open Scope string_scope.
 
 Definition D_wellformed := Eval vm_compute in
@@ -12,8 +14,8 @@ Print D_wellformed.
 Definition D_unstructured := Eval vm_compute in unstructured. Print D_unstructured.
 Definition D_may_leak := Eval vm_compute in may_leak. Print D_may_leak.
 Definition D_spec_problems := Eval vm_compute in spec_problems. Print D_spec_problems.
-Definition D_well_locked := Eval vm_compute in well_locked guards funcs. Print D_well_locked.
-Definition D_diagnose := Eval vm_compute in diagnose guards funcs. Print D_diagnose.
+Definition D_well_locked := Eval vm_compute in well_locked_from guards funcs entries. Print D_well_locked.
+Definition D_diagnose := Eval vm_compute in diagnose_from guards funcs entries. Print D_diagnose.
 Definition D_wrappers := Eval vm_compute in wrappers_ok funcs registered main_callbacks listener_callbacks.
 Print D_wrappers.
 Definition D_bad_registrations := Eval vm_compute in
@@ -26,10 +28,18 @@ Print D_unwrapped_callbacks.
 Definition D_no_escape := Eval vm_compute in no_escape funcs escapes. Print D_no_escape.
 Definition D_escaping := Eval vm_compute in filter (fun e => elem_written funcs (snd e)) escapes.
 Print D_escaping.
-Definition D_one_lock := Eval vm_compute in one_lock_at_a_time funcs. Print D_one_lock.
-Definition D_nested := Eval vm_compute in
-  map fst (filter (fun p => match inline fuel0 funcs (snd p) with Some c => negb (nesting_ok [] c) | None => true end) funcs).
-Print D_nested.
+Definition D_lock_order := Eval vm_compute in lock_order_ok funcs. Print D_lock_order.
+Definition D_lock_edges := Eval vm_compute in nodup (fun a b => prod_eq_dec a b) (lock_edges funcs). Print D_lock_edges.
+Definition D_cb_under_lock := Eval vm_compute in
+  map fst (filter (fun p => match inline fuel0 funcs (snd p) with Some c => negb (cb_ok [] c) | None => true end) funcs).
+Print D_cb_under_lock.
+Definition D_no_recursive := Eval vm_compute in no_recursive_lock funcs. Print D_no_recursive.
+Definition D_reacquirers := Eval vm_compute in reacquirers funcs. Print D_reacquirers.
+Definition D_declared_inferred := Eval vm_compute in
+  forallb (fun d => existsb (fun f => String.eqb (fst d) (snd f)) inferable) guards_declared.
+Print D_declared_inferred.
+Definition D_guards := Eval vm_compute in (List.length guards_declared, List.length guards_inferred, List.length entries).
+Print D_guards.
 Definition D_confined := Eval vm_compute in confined guards fetchers. Print D_confined.
 Definition D_unconfined := Eval vm_compute in
   map (fun x => fst (fst x)) (filter (fun x => negb (confined guards [x])) fetchers).
